@@ -42,12 +42,12 @@ PER_GROUP = 40               # drifted histories adjudicated per (python-side) d
 #  1 ""  2 "a"  3 "ab"  4 1  5 None  6 ["ab"]  7 "abc"  8 True  9 {"ab": 1}  10 1.5  11 nil-uuid
 HIST_TIERS = {
     "quick": [
-        dict(tag="A", MaxLen=4, NNames=3, NCheckers=4, ValueIdx=[1, 2, 3, 4, 5, 6], PreReg=False),
+        dict(tag="A", MaxLen=4, NNames=3, NCheckers=3, ValueIdx=[1, 3, 4, 5, 6], PreReg=False),
         dict(tag="P", MaxLen=3, NNames=1, NCheckers=2, ValueIdx=[1, 3, 11, 4], PreReg=True),
         dict(tag="W", MaxLen=2, NNames=2, NCheckers=4, ValueIdx=list(range(1, 12)), PreReg=True),
     ],
     "thorough": [
-        dict(tag="A", MaxLen=4, NNames=3, NCheckers=4, ValueIdx=[1, 2, 3, 4, 5, 6], PreReg=False),
+        dict(tag="A4", MaxLen=4, NNames=3, NCheckers=4, ValueIdx=[1, 2, 3, 4, 5, 6], PreReg=False),
         dict(tag="A5", MaxLen=5, NNames=2, NCheckers=3, ValueIdx=[1, 3, 4, 5, 6], PreReg=False),
         dict(tag="B", MaxLen=6, NNames=1, NCheckers=4, ValueIdx=[1, 2, 3, 4], PreReg=False),
         dict(tag="B2", MaxLen=6, NNames=2, NCheckers=2, ValueIdx=[1, 4], PreReg=False),
